@@ -1,5 +1,6 @@
 import N0Verif.Proofs.CompareOpts
 import N0Verif.Proofs.CompareTransform
+import N0Verif.Proofs.CompareTransformKeyed
 /-!
 # C10 — exclude_xpaths, compare_only and transform only narrow or map what is compared
 
@@ -83,6 +84,39 @@ theorem C10_transform_keyed_cex :
       (match compareTop { trCexCfg with tr := [] } (mapT trCexCfg [] trCexA) (mapT trCexCfg [] trCexB) with
         | .ok r => r.diffs | .error _ => 1) = 0 :=
   transform_keyed_cex
+
+/-- **C10 (transform, keyed/default comparison, lists of records).**  For `compare` without a composite key
+(`cfg.direct = false`, `cfg.ck` empty), `LeafTransform cfg`, every other option and flag record, on trees all of
+whose list items are records (`recOnly`: every item of every list, at every depth, is a dictionary — then every
+item has the key `''`, the n-th record of one list meets the n-th record of the other and the `str()`-keying of
+the untransformed values, finding C10-a, plays no role): the run with `transform` on `(a, b)` and the run without
+it on the mapped trees raise the same exception or return results of the same shape. -/
+theorem C10_transform_keyed_records (cfg : Cfg) (hd : cfg.direct = false) (hck : cfg.ck.pats.isEmpty = true)
+    (hl : LeafTransform cfg) (a b : Val) (ha : recOnly a = true) (hb : recOnly b = true) :
+    TrERel (compareTop cfg a b) (compareTop (noTransf cfg) (mapT cfg [] a) (mapT cfg [] b)) :=
+  compareTop_tr_keyed cfg hd hck hl a b ha hb
+
+/-- … in particular the verdict is the verdict on the mapped trees -/
+theorem C10_transform_keyed_records_verdict (cfg : Cfg) (hd : cfg.direct = false) (hck : cfg.ck.pats.isEmpty = true)
+    (hl : LeafTransform cfg) (a b : Val) (ha : recOnly a = true) (hb : recOnly b = true) :
+    verdict (compareTop cfg a b) = verdict (compareTop { cfg with tr := [] } (mapT cfg [] a) (mapT cfg [] b)) :=
+  transform_keyed_verdict cfg hd hck hl a b ha hb
+
+/-- with a composite key the keyed statement fails even on lists of records: the key is built from the
+TRANSFORMED field, which must be a `str` — the identity function on the `int` key field `id` raises `TypeError`
+(`str + int`), the plain run on the (identical) mapped tree returns normally -/
+theorem C10_transform_keyed_ck_cex :
+    recOnly trkCkA = true ∧ LeafTransform trkCkCfg ∧ compareTop trkCkCfg trkCkA trkCkA = .error .TypeError ∧
+      mapT trkCkCfg [] trkCkA = trkCkA ∧
+      (compareTop { trkCkCfg with tr := [] } (mapT trkCkCfg [] trkCkA) (mapT trkCkCfg [] trkCkA)).map (·.diffs) = .ok 0 :=
+  ⟨trk_ck_cex.1, trkCkCfg_leaf, trk_ck_cex.2.1, trk_ck_cex.2.2.1, trk_ck_cex.2.2.2⟩
+
+/-- non-vacuity: lists of records whose names agree after `lower`, one changed value, one extra record -/
+example : LeafTransform trkCfg := trkCfg_leaf
+example : recOnly trkA = true ∧ recOnly trkB = true ∧ trkCfg.direct = false ∧ trkCfg.ck.pats.isEmpty = true ∧
+    (compareTop trkCfg trkA trkB).map (fun r => (r.diffs, r.notEqual.map (·.path), r.otherUnique.map (·.path)))
+      = .ok (2, [[.key ['r'], .idx 1, .key ['v']]], [[.key ['r'], .idx 2]]) ∧
+    (compareTop { trkCfg with tr := [] } trkA trkB).map (·.diffs) = .ok 4 := trk_example
 
 example : LeafTransform trCexCfg := trCexCfg_leaf
 example : (match compareTop { trCexCfg with direct := true } trCexA trCexB with | .ok r => r.diffs | .error _ => 1) = 0 :=
